@@ -34,6 +34,7 @@ enum Kind : int {
   kSeqCreate,     // obj = worker slot
   kSeqDestroy,    // obj = worker slot
   kSeqRestart,    // obj = worker slot (exit, join, fresh thread)
+  kGuardReassign, // worker: a live guard of this manager is overwritten by move assignment with a guard of a SECOND manager
   kKinds
 };
 
@@ -61,6 +62,7 @@ struct GuardRec {
 struct State {
   const Program *prog = nullptr;
   EpochManager *mgr = nullptr;
+  EpochManager *mgr2 = nullptr;        // only a source of guards for kGuardReassign
   std::vector<GuardRec> guards;        // ghost set G (complete guards whose destruction has not begun)
   uint64_t guard_activity = 0;         // bumped at every CreateEpochGuard invocation and at every completed destruction
   int creates_in_flight = 0;
@@ -248,6 +250,33 @@ void op_guard_move(const Op &op)
   S->guard_activity++;
 }
 
+// the old grant ends when the guard is overwritten: the pin on this manager must be released by the move assignment
+void op_guard_reassign(const Op &op)
+{
+  S->guard_activity++;
+  S->creates_in_flight++;
+  dsim::set_alloc_tag(kTagGuard);
+  {
+    dsim::op_begin("CreateEpochGuard", 0);
+    EpochGuard g = S->mgr->CreateEpochGuard();
+    dsim::op_end();
+    const size_t e = g.GetProtectedEpoch();
+    const size_t gi = ghost_register(e);
+    S->creates_in_flight--;
+    for (int64_t i = 0; i <= op.a; ++i) dsim::yield();
+    ghost_unregister(gi);
+    dsim::op_begin("move-assign guard of another manager", 0);
+    g = S->mgr2->CreateEpochGuard();
+    dsim::op_end();
+    S->destroys_in_flight--;
+    S->guard_activity++;
+    dsim::yield();
+    dsim::op_begin("destroy guard", 0);
+  }
+  dsim::op_end();
+  dsim::set_alloc_tag(0);
+}
+
 struct WArg {
   int slot;
   size_t from;  // first operation to execute
@@ -265,6 +294,7 @@ void run_worker_ops(WArg *w)
     switch (op.kind) {
       case kGuard: op_guard(op); break;
       case kGuardMove: op_guard_move(op); break;
+      case kGuardReassign: op_guard_reassign(op); break;
       case kReadings:
         for (int64_t k = 0; k <= op.a; ++k) {
           reading_current("worker");
@@ -612,6 +642,15 @@ void entry(void *)
     EpochGuard warm = S->mgr->CreateEpochGuard();
     dsim::set_alloc_tag(0);
   }
+  bool need2 = false;
+  for (auto &t : p.threads)
+    for (auto &o : t)
+      if (o.kind == kGuardReassign) need2 = true;
+  if (need2) {
+    dsim::set_alloc_tag(kTagGuard);  // not list memory of the manager under test
+    S->mgr2 = new EpochManager{};
+    dsim::set_alloc_tag(0);
+  }
   if (p.profile == kSequential) {
     run_sequential(p);
   } else {
@@ -656,6 +695,8 @@ void entry(void *)
   (void)nodes_before_delete;
   delete S->mgr;
   S->mgr = nullptr;
+  delete S->mgr2;
+  S->mgr2 = nullptr;
   const size_t left = dsim::heap_live(kTagCtor) + dsim::heap_live(kTagForward);
   if (left != 0) {
     ORACLE("[C20]", "list-memory-not-freed", " :: %zu block(s) allocated by EpochManager for its lists are still alive after the manager was destroyed", left);
@@ -745,7 +786,7 @@ void generate(Program &prog, dsim::Config &cfg, dsim::Rng &pr, dsim::Rng &cr, in
         o.kind = kReadings;
         o.a = static_cast<int64_t>(pr.below(3));
       } else if (x < 85) {
-        o.kind = kGuardMove;
+        o.kind = pr.chance(1, 2) ? kGuardMove : kGuardReassign;
         o.a = static_cast<int64_t>(pr.below(3));
       } else {
         o.kind = kRestart;
@@ -799,6 +840,7 @@ std::string render(const Program &p)
         case kReadings: s += " readings x" + std::to_string(o.a + 1) + ";"; break;
         case kRestart: s += " exit+restart;"; break;
         case kGuardMove: s += " guard+moves(hold " + std::to_string(o.a) + ");"; break;
+        case kGuardReassign: s += " guard; guard = otherManager.CreateEpochGuard()(hold " + std::to_string(o.a) + ");"; break;
         default: break;
       }
     }
